@@ -489,6 +489,10 @@ ParamsLoop:
 				break ParamsLoop
 			}
 			t = p.Scan()
+			if t.Type == token.SgCloseBkt {
+				// a comma must be followed by a name or '...'
+				tokenError(t, "name or '...'")
+			}
 		case token.SgEtc:
 			hasEtc = true
 			t = p.Scan()
